@@ -11,6 +11,7 @@
 //   sentinel : every output argument written; ranges |lat|<=90, |lon|<=180
 #include <GeographicLib/Geocentric.hpp>
 #include <GeographicLib/LocalCartesian.hpp>
+#include <memory>
 #include "harness/common.hpp"
 #include "oracle/ref_cart.hpp"
 #include "oracle/ref_exact.hpp"
@@ -483,7 +484,12 @@ static void sec_local(Ctx& c, uint64_t idx) {
   std::string cls = dflt ? std::string("local/default-constructed") : "local/" + lc + "/" + hc0 + "/" + shape;
   J wit = J().f("a", E.a).f("f", E.f).f("lat0", lat0).f("lon0", lon0).f("h0", h0).b("default_constructed", dflt);
   LocalCartesian LC0;                                                // default object (WGS84)
-  LocalCartesian LCe(lat0, lon0, h0, G);
+  // the earth argument is copied by the constructor: the Geocentric handed over is afterwards re-used for another ellipsoid and / or
+  // destroyed (the object must hold its own copy; use-after-free is ASan's to report) -- added after seeded change C07-r5s1
+  std::unique_ptr<Geocentric> Gtmp(new Geocentric(E.a, E.f));
+  LocalCartesian LCe(lat0, lon0, h0, dflt ? G : *Gtmp);
+  if (r.coin(0.7)) *Gtmp = Geocentric(E.a * 1.37, E.f < 0.5 ? 0.25 : 0.01);
+  if (r.coin(0.7)) Gtmp.reset();
   const LocalCartesian& LC = dflt ? LC0 : LCe;
   c.count(cls, vh::hmix(vh::hmix(vh::hmix(ell_h(E), lat0), lon0), h0));
   if (c.want_sample(cls)) c.sample(cls, wit);
@@ -626,7 +632,10 @@ static void sec_hist(Ctx& c, uint64_t) {
   ref::CartEll<q128> Q(E.a, E.f);
   std::string t; double lat = 0, lon = 0, h = 0;       // arguments of the latest Reset / constructor = the current origin
   if (ctor == 2) { lat = gen_lat(r, t); lon = gen_lon(r); h = r.coin(0.3) ? 0.0 : r.uniform(-1e4, 1e7) * (E.a / 6.4e6); }
-  LocalCartesian Ad, Ag(G), Ao(lat, lon, h, G);
+  std::unique_ptr<Geocentric> Gtmp(new Geocentric(G));     // constructor argument that does not outlive the construction unchanged (see sec_local)
+  LocalCartesian Ad, Ag(*Gtmp), Ao(lat, lon, h, *Gtmp);
+  if (r.coin(0.7)) *Gtmp = Geocentric(E.a * 0.61, E.f < 0.5 ? 0.3 : 0.02);
+  if (r.coin(0.7)) Gtmp.reset();
   LocalCartesian& A = ctor == 0 ? Ad : ctor == 1 ? Ag : Ao;
   const char* cname = ctor == 0 ? "default-constructed" : ctor == 1 ? "constructed-from-Geocentric" : "constructed-with-origin";
   const int nops = r.range(4, 16); std::string log; uint64_t hsh = vh::hmix(vh::hmix(vh::hmix(ell_h(E), lat), lon), h);
